@@ -370,7 +370,34 @@ struct Run {
 };
 
 template <class Solver>
+void run_solver_impl(Solver &solver, VProblem &vp, Run &r, Json &j);
+
+// "xstoppedcopy=1|2": the solver that runs is a copy (1) / a moved-to object (2) of a solver that received stop(): the request was made to
+// the OTHER object, so the derived solver must run as if no stop had ever been requested
+template <class Solver>
 void run_solver(Solver &solver, VProblem &vp, Run &r, Json &j) {
+    int xc = 0;
+    for (auto &o : g_opts)
+        if (o.rfind("xstoppedcopy=", 0) == 0) xc = std::stoi(o.substr(13));
+    if constexpr (std::is_copy_constructible_v<Solver>) {
+        if (xc == 1) {
+            solver.stop();
+            Solver derived{solver};
+            j.i("stopped_copy", 1);
+            return run_solver_impl(derived, vp, r, j);
+        }
+    }
+    if (xc == 2) {
+        solver.stop();
+        Solver derived{std::move(solver)};
+        j.i("stopped_copy", 2);
+        return run_solver_impl(derived, vp, r, j);
+    }
+    run_solver_impl(solver, vp, r, j);
+}
+
+template <class Solver>
+void run_solver_impl(Solver &solver, VProblem &vp, Run &r, Json &j) {
     VProblemProv vpp{vp, g_provmask};
     alpaqa::TypeErasedProblem<config_t> problem = g_provmask ? alpaqa::TypeErasedProblem<config_t>{&vpp} : alpaqa::TypeErasedProblem<config_t>{&vp};
     solver.set_progress_callback([](const typename Solver::ProgressInfo &i) { record(i); });
